@@ -403,6 +403,10 @@ def run(repo, chk):
     chk.expect(bad is None and n_dec >= 64, 'C16.E6', 'gen_block cleanup condition',
                (f'with exited={bad[0]} modes={bad[1]} cleanup emitted={bad[2]}; ' if bad else f'{n_dec} (path, exited, modes) combinations; ') +
                'cleanup code must be emitted iff the block can complete normally and did not exit', GEN)
+    # what survives typechecking: an implicit return for every body (also the empty one), live code after non-exits (typing census)
+    if chk.__class__.__name__ == 'Check':
+        from .. import typecensus
+        typecensus.decide(repo, chk, 'C16.E3', {'exit'}, 'hidc/ast/program.py')
     # terminal calls are terminal in the emitted code too: a defeat site is `[Jump(defeat)] Halt` (shared with C03.J1/J2)
     if chk.__class__.__name__ == 'Check':
         from . import c03
